@@ -84,6 +84,15 @@ func runE1Check(rc *runCtx, assumptions []string, extra func(cov map[string]inte
 		rc.writeEvidence(cov, assumptions, 0)
 		return 2
 	}
+	if dbg := os.Getenv("VERIF_DEBUG_STATS"); dbg != "" {
+		f, _ := os.Create(dbg)
+		for _, st := range sum.Stats {
+			if st != nil {
+				fmt.Fprintf(f, "%d\t%d\t%d\t%s\t%s\n", st.WallMs, st.States, st.Executions, st.Fallback, st.Scenario)
+			}
+		}
+		f.Close()
+	}
 	exit, known, viol := rc.report(sum.Findings)
 	cov["known_findings_reported"] = known
 	rc.writeEvidence(cov, assumptions, viol)
